@@ -74,7 +74,7 @@ func selftest(verif string) int {
 	for _, t := range []struct {
 		name string
 		bad  bool
-	}{{"LoopOK", false}, {"LoopBad", true}} {
+	}{{"LoopOK", false}, {"LoopBad", true}, {"LoopEchoOK", false}, {"LoopEchoBad", true}} {
 		if fn := fnOf(pkg + "." + t.name); fn != nil {
 			bad := false
 			ls := natLoops(fn)
